@@ -334,13 +334,26 @@ class Dec:
         r, c = self.n(), self.n()
         return {"shape": (r, c), "data": [self.f() for _ in range(r * c)]}
 
+    # Dual / Dual2 results are compared BY NAME: no property pins the order in which a result stores its variables
+    # (C03: "depends only on ... its derivative per variable name"), so a well-formed result is put in canonical form -
+    # names sorted, derivative arrays permuted with them.  The name SET, the array shapes and duplicate-freeness stay
+    # observable (an ill-formed result is left exactly as printed).
     def dual(self):
-        return {"vars": self.names(), "re": self.f(), "du": self.vec()}
+        vs, re, du = self.names(), self.f(), self.vec()
+        if len(set(vs)) == len(vs) == len(du):
+            o = sorted(range(len(vs)), key=lambda i: vs[i])
+            vs, du = [vs[i] for i in o], [du[i] for i in o]
+        return {"vars": vs, "re": re, "du": du}
 
     def dual2(self):
-        d = {"vars": self.names(), "re": self.f(), "du": self.vec()}
-        d["dd"] = self.mat()
-        return d
+        vs, re, du = self.names(), self.f(), self.vec()
+        dd = self.mat()
+        n = len(vs)
+        if len(set(vs)) == n == len(du) and dd["shape"] == (n, n) and len(dd["data"]) == n * n:
+            o = sorted(range(n), key=lambda i: vs[i])
+            vs, du = [vs[i] for i in o], [du[i] for i in o]
+            dd = {"shape": (n, n), "data": [dd["data"][i * n + j] for i in o for j in o]}
+        return {"vars": vs, "re": re, "du": du, "dd": dd}
 
     def number(self):
         k = self.n()
